@@ -239,7 +239,18 @@ fn app_case(case_no: usize, rng: &mut Rng, rep: &mut Report) {
         w
     };
     let decoy_rates = |rng: &mut Rng| -> Vec<(String, VehicleCostRate)> {
-        features.iter().map(|f| (f.clone(), match rng.below(3) { 0 => VehicleCostRate::Raw, 1 => VehicleCostRate::Factor { factor: rng.frange(0.0, 30.0) }, _ => VehicleCostRate::Offset { offset: rng.frange(0.0, 50.0) } })).collect()
+        let mut r: Vec<(String, VehicleCostRate)> = features.iter().map(|f| (f.clone(), match rng.below(3) { 0 => VehicleCostRate::Raw, 1 => VehicleCostRate::Factor { factor: rng.frange(0.0, 30.0) }, _ => VehicleCostRate::Offset { offset: rng.frange(0.0, 50.0) } })).collect();
+        // the configuration may leave features without a rate (the query supplies them); one entry always stays
+        if rng.chance(0.5) && r.len() > 1 {
+            let keep = rng.below(r.len());
+            let mut i = 0;
+            r.retain(|_| {
+                let k = i == keep || rng.chance(0.5);
+                i += 1;
+                k
+            });
+        }
+        r
     };
     let mut cfg_cost = real.clone();
     let mut over = serde_json::Map::new();
